@@ -157,6 +157,33 @@ Theorem C07_forced_postmask_only_restricts : forall i, i_hidden i = true -> may_
 Proof. exact forced_postmask_only_restricts. Qed.
 Print Assumptions C07_forced_postmask_only_restricts.
 
+(* BOARD LIFE CYCLE. "Moderator of that board" is read from a cache the segment keeps per board SLOT (Shm.BMCache), so
+   the verdict on a board could depend on which boards were in its slot before. [l_run true [] steps] runs any history of
+   steps - ptt.NewBoard (free slot of .BRD if there is one, else append; both end in cache.ResetBoard), removal of a board
+   (record blanked, boards reloaded; the moderator caches are left), reload, query - from the state in which no board has
+   been created yet. After EVERY history: if board n is there with header b, the moderator cache c of its slot is
+   ParseBMList of b's own moderator field, and a query about n is answered - at the validity query, the five other ptt
+   article entry points, the two bbs wrappers, the listing by number and the summary - by the specification
+   (may_read / may_list, [l_spec_answer]) applied to the caller and to b alone. *)
+Theorem C07_life_cycle : forall steps n b c u ulevel o18,
+  find (l_named n) (fst (l_run true [] steps)) = Some (Some b, c) ->
+  c = parse_bm_list (lb_bms b) /\
+  l_query (fst (l_run true [] steps)) n u ulevel o18 = l_spec_answer (l_inp b (parse_bm_list (lb_bms b)) u ulevel o18).
+Proof. exact life_cycle. Qed.
+Print Assumptions C07_life_cycle.
+
+(* ... and the call of cache.ResetBoard on the free-slot path of addBoardRecord is what this rests on: the same history
+   machine with the header published alone ([l_run false]: not the code) lets the moderator of the board that was in the
+   slot before read the new board and refuses the new board's own moderator *)
+Theorem C07_life_cycle_needs_reset : exists steps n b c old new ulevel,
+  find (l_named n) (fst (l_run false [] steps)) = Some (Some b, c) /\
+  may_read (l_inp b (parse_bm_list (lb_bms b)) old ulevel false) = false /\
+  nth 1 (l_query (fst (l_run false [] steps)) n old ulevel false) 0 = 1 /\
+  may_read (l_inp b (parse_bm_list (lb_bms b)) new ulevel false) = true /\
+  nth 1 (l_query (fst (l_run false [] steps)) n new ulevel false) 0 = 0.
+Proof. exact life_cycle_needs_reset. Qed.
+Print Assumptions C07_life_cycle_needs_reset.
+
 (* NOT covered by the theorems above, and false of the code (known findings): the entry points take the board
    number and the board name separately and nothing ties the two — permission is evaluated on the numbered board,
    the files read are the named board's (known finding bid-name-mismatch) ... *)
